@@ -86,7 +86,7 @@ func c13Epilogue(r *rand.Rand) []core.Op {
 	if r.IntN(3) == 0 {
 		return nil
 	}
-	ops := []core.Op{sOp("hash", ""), sOp("search", ""), sOp("sp.set", "a", "zz"), sOp("sp.append", "b", "1"), sOp("sp.iterate"), sOp("sp.sort"),
+	ops := []core.Op{sOp("hash", ""), sOp("search", ""), sOp("sp.set", "a", "zz"), sOp("sp.append", "b", "1"), sOp("sp.iterate"), sOp("sp.rewrite", "x", "n"), sOp("sp.sort"),
 		sOp("pathname", "/zz/y"), sOp("port", "8123"), sOp("hostname", "zz.example"), sOp("username", "zu"), sOp("password", "zp"), sOp("hash", "zf")}
 	r.Shuffle(len(ops), func(i, j int) { ops[i], ops[j] = ops[j], ops[i] })
 	return ops[:3+r.IntN(len(ops)-2)]
